@@ -295,6 +295,30 @@ pub fn work(ctx: &Ctx, rep: &mut Report) {
         }
         c11_history(&h, rep);
     }
+    // (d) state product: every combination of 14 mode/state bits x 4 x 4 saved-context kinds
+    {
+        let total = crate::workloads::state_count();
+        let stride = if ctx.thorough { 1 } else { 8 };
+        let sizes = [(7usize, 4usize), (3, 2), (12, 5)];
+        let mut u = ctx.shard * stride + (ctx.seed as usize % stride);
+        let mut done = 0u64;
+        while u < total {
+            let (c, r) = sizes[(u / 7) % sizes.len()];
+            let mut h = History::new(c, r, None);
+            h.calls.push(Call::FeedStr(crate::workloads::state_script(u, c, r)));
+            h.meta.push(("dump_at".into(), 1));
+            for p in &pr[u % pr.len()] {
+                h.calls.push(Call::FeedStr(p.to_string()));
+            }
+            if done == 3 {
+                rep.sample(format!("state product ({} of {} combinations): {}", total / stride, total, h.brief()));
+            }
+            c11_history(&h, rep);
+            done += 1;
+            u += stride * ctx.nshards;
+        }
+        rep.count("state_product_round_trips", done);
+    }
     // (c) every cut of short histories (also inside ESC/CSI/DCS/OSC and parameter lists)
     let m = ctx.scale(2000, 30_000);
     let sprof = Profile::general().boost(&[T_SGR, T_MODE, T_STR, T_MALFORMED, T_ALT, T_SAVE], 3).resizes(0).length((1, 1), (2, 5)).size(8, 4);
